@@ -125,6 +125,7 @@ func submitAndSettle(w *World, name string, spec SetSpec) (*Call, error) {
 // deleted is dropped from the stored configuration by the next commit on that
 // target, because the stale tombstone stays in the store.
 type zombieTracker struct {
+	listCase bool
 	deleted map[string][]delRec       // target -> deleted nodes
 	written map[string]map[string]int // target -> leaf path text -> request number of the last write
 }
@@ -152,15 +153,28 @@ func (z *zombieTracker) note(req int, ops []model.Op) {
 }
 
 // exposed reports whether leaf l of target t sits beneath a node deleted by a
-// request earlier than the one that last wrote l.
-func (z *zombieTracker) exposed(t string, l model.Path) bool {
+// request earlier than the one that last wrote l, and at least one LATER request
+// (number < cur is the write, cur the request just committed) has been committed
+// on the target since: the finding loses the leaf at the NEXT commit, never at
+// the commit that wrote it.
+func (z *zombieTracker) exposed(t string, l model.Path, cur int) bool {
 	wr, ok := z.written[t][l.String()]
 	if !ok {
 		return false
 	}
 	for _, d := range z.deleted[t] {
 		if d.req < wr && model.Covers(d.node, l) && len(d.node) < len(l) {
-			return true
+			if wr < cur {
+				return true
+			}
+			// F-list-tombstone-never-cleared: the tombstone of a whole list ("/l1",
+			// no keys) is never cleared by a later write of an entry, because the
+			// walk up the parents goes from "/l1[id=a]" straight to "": the entry is
+			// pruned by the very commit that writes it
+			if n := len(d.node); n > 0 && len(d.node[n-1].Keys) == 0 && len(l) > n-1 && len(l[n-1].Keys) > 0 {
+				z.listCase = true
+				return true
+			}
 		}
 	}
 	return false
@@ -171,7 +185,7 @@ func (z *zombieTracker) exposed(t string, l model.Path) bool {
 // listed, the finding is recorded and the reference is re-synchronised with the
 // code so that the rest of the history is still checked. Anything else is left
 // for checkGet to report.
-func reconcileKnown(w *World, x *vstat.Ctx, ref *Ref, z *zombieTracker, t string) {
+func reconcileKnown(w *World, x *vstat.Ctx, ref *Ref, z *zombieTracker, t string, cur int) {
 	if !vstat.IsKnown("C03", "F-zombie-tombstone") || w.Config(t) == nil {
 		return
 	}
@@ -183,7 +197,7 @@ func reconcileKnown(w *World, x *vstat.Ctx, ref *Ref, z *zombieTracker, t string
 	var missing []string
 	for k, l := range want {
 		if _, ok := got[k]; !ok {
-			if !z.exposed(t, l.Path) {
+			if !z.exposed(t, l.Path, cur) {
 				return
 			}
 			missing = append(missing, k)
@@ -199,7 +213,12 @@ func reconcileKnown(w *World, x *vstat.Ctx, ref *Ref, z *zombieTracker, t string
 	if len(missing) == 0 {
 		return
 	}
-	x.Known("F-zombie-tombstone", "a value written after one of its ancestors was deleted is dropped from the stored configuration by the next commit on that target (the stale tombstone stays in the store and prunes it)")
+	if z.listCase {
+		z.listCase = false
+		x.Known("F-zombie-tombstone", "a list entry written after the whole list (path without keys) was deleted is pruned by the very commit that writes it: the walk up the parents never reaches the list's tombstone")
+	} else {
+		x.Known("F-zombie-tombstone", "a value written after one of its ancestors was deleted is dropped from the stored configuration by the next commit on that target (the stale tombstone stays in the store and prunes it)")
+	}
 	x.Logf("   known finding F-zombie-tombstone: %s lost %v; reference re-synchronised", t, missing)
 	for _, k := range missing {
 		delete(want, k)
@@ -325,7 +344,7 @@ func runC03(c C03Case, x *vstat.Ctx) error {
 			z.note(i+1, st.Set.Resolved())
 		}
 		for _, t := range c.Targets {
-			reconcileKnown(w, x, ref, z, t)
+			reconcileKnown(w, x, ref, z, t, i+1)
 		}
 		switch rtx.Outcome {
 		case "committed":
